@@ -21,6 +21,7 @@ ADAPTATIONS = [
     'float(str): well-formedness decided by a per-character state machine, well-formed numerals realised (validated against CPython)',
     'format(x, spec): symbolic ints/strs kept symbolic for empty and <N/>N specs',
     'math.floor/ceil(symbolic int) -> the int itself (no realisation)',
+    'symbolic str.strip/lstrip/rstrip(): per-character forking instead of realisation',
     'format(sym int, "0Nx") -> opaque placeholder (diagnostic messages only)',
 ]
 
@@ -260,6 +261,43 @@ def install():
 
     EXTRA[math.floor] = _mk_int_identity(math.floor)
     EXTRA[math.ceil] = _mk_int_identity(math.ceil)
+
+    # 9. str.strip/lstrip/rstrip() of a symbolic string: CrossHair's own
+    #    implementation realises; fork per character instead
+    _WS = frozenset([9, 10, 11, 12, 13, 28, 29, 30, 31, 32, 133, 160, 5760,
+                     8232, 8233, 8239, 8287, 12288] + list(range(8192, 8203)))
+
+    def _is_ws(o):
+        # numeric tests only (no hashing of a symbolic value)
+        if o == 32:
+            return True
+        if o < 9 or (13 < o < 28) or (32 < o < 133):
+            return False
+        with NoTracing():
+            from crosshair.core import realize
+            oc = realize(o)
+        return oc in _WS
+
+    def _mk_strip(orig, left, right):
+        def strip(self, chars=None):
+            if chars is not None:
+                return orig(self, chars)
+            n = len(self)
+            i = 0
+            if left:
+                while i < n and _is_ws(ord(self[i])):
+                    i += 1
+            j = n
+            if right:
+                while j > i and _is_ws(ord(self[j - 1])):
+                    j -= 1
+            return self[i:j]
+        return strip
+
+    LS = builtinslib.LazyIntSymbolicStr
+    LS.strip = _mk_strip(LS.strip, True, True)
+    LS.lstrip = _mk_strip(LS.lstrip, True, False)
+    LS.rstrip = _mk_strip(LS.rstrip, False, True)
 
     # layer EXTRA on top of CrossHair's own registrations
     from crosshair.tracers import COMPOSITE_TRACER
